@@ -2,6 +2,7 @@ import IV.Model.Proto
 import IV.Model.Rpm
 import IV.Model.RpmRef
 import IV.Model.RpmLex
+import IV.Model.RpmPkg
 open IV IV.Proto IV.Rpm
 
 /-- UTF-8 code units of one code point (driver glue: the harness sends code points, RPM sees
@@ -34,8 +35,65 @@ def showTok : Tok → String
   | .alpha s => "a" ++ String.ofList s
   | .num s => "n" ++ String.ofList s
 
+def decStrs (f : String) : Option (List (List Char)) := (decList f).mapM decStr
+
+def showFields (f : Fields) : String :=
+  "|".intercalate [encStr f.name, encStr f.epoch, encStr f.version, encStr f.release,
+                   match f.arch with | some a => "A" ++ encStr a | none => "N"]
+
+/-- groups of builds by name: `name count e v r e v r … name count …` (driver glue) -/
+def parseGroups : Nat → List String → Option (List (List Char × List Evr))
+  | _, [] => some []
+  | 0, _ => none
+  | fuel + 1, n :: k :: rest => do
+      let n ← decStr n; let k ← decNat k
+      if rest.length < 3 * k then none
+      let xs ← parseEvrs (rest.take (3 * k))
+      let tl ← parseGroups fuel (rest.drop (3 * k))
+      pure ((n, xs) :: tl)
+  | _, _ => none
+
+def showOpt : Option Evr → String
+  | some m => showEvr m | none => "none"
+
 def handle (fs : List String) : String :=
   match fs with
+  | ["pp", archs, s] =>
+    match decStrs archs, decStr s with
+    | some archs, some s => match parsePackage archs s with | some f => showFields f | none => "E"
+    | _, _ => "bad-op"
+  | ["ep", p1, e1, p2, e2] =>
+    match decBool p1, decStr e1, decBool p2, decStr e2 with
+    | some p1, some e1, some p2, some e2 =>
+      let x := epochOf (if p1 then some e1 else none); let y := epochOf (if p2 then some e2 else none)
+      match pyIntDec x, pyIntDec y with
+      | some i, some j => s!"{encStr x}|{encStr y}|{evrCmp ⟨i, ['1'], ['1']⟩ ⟨j, ['1'], ['1']⟩}"
+      | _, _ => s!"{encStr x}|{encStr y}|E"
+    | _, _, _, _ => "bad-op"
+  | ["cmpid", same, e1, v1, r1, e2, v2, r2] =>
+    match decBool same, parseEvrs [e1, v1, r1, e2, v2, r2] with
+    | some same, some [x, y] => toString (evrCmpId same x y)
+    | _, _ => "bad-op"
+  | ["opsx", n1, e1, v1, r1] =>
+    match decStr n1, parseEvrs [e1, v1, r1] with
+    | some n1, some [x] =>
+      let a : Pkg := ⟨n1, x⟩
+      ",".intercalate [optB (opEq a .other), optB (opNe a .other), optB (opLt a .other), optB (opLe a .other),
+                       optB (opGt a .other), optB (opGe a .other)]
+    | _, _ => "bad-op"
+  | ["hk", n1, v1, r1, a1, n2, v2, r2, a2] =>
+    -- arch: "N" = None, else "A" ++ string
+    let arch (f : String) : Option (Option (List Char)) :=
+      if f = "N" then some none else if f.startsWith "A" then (decStr (f.drop 1).toString).map some else none
+    match decStr n1, decStr v1, decStr r1, arch a1, decStr n2, decStr v2, decStr r2, arch a2 with
+    | some n1, some v1, some r1, some a1, some n2, some v2, some r2, some a2 =>
+      let f : Fields := ⟨n1, [], v1, r1, a1⟩; let g : Fields := ⟨n2, [], v2, r2, a2⟩
+      s!"{if hashKey f = hashKey g then 1 else 0}|{encStr (hashKey f)}"
+    | _, _, _, _, _, _, _, _ => "bad-op"
+  | "gmax" :: name :: rest =>
+    match decStr name, parseGroups (rest.length + 1) rest with
+    | some name, some gs => s!"{showOpt (getMax gs name)}|{showOpt (getMin gs name)}"
+    | _, _ => "bad-op"
   | ["vc", a, b] =>
     match decStr a, decStr b with
     | some a, some b => toString (vercmp a b)
